@@ -506,16 +506,33 @@ func (c *Ctx) evalSliceInit(rel string, g *ssa.Global) *sliceTable {
 			if !ok || !(isLoadOf(ia.X, g) || ia.X == ssa.Value(g)) {
 				return
 			}
+			ord := 0
+			for i, x := range s.Block().Instrs {
+				if x == in {
+					ord = i * 1024
+				}
+			}
+			// table[keys[i]] = vals[i] (or a constant) for every i of a loop over a constant string
+			if ks, iv, ok := constStringAt(ia.Index); ok {
+				if n, ok := fullLoopOver(iv, s.Block()); ok && n == int64(len(ks)) {
+					vs, iv2, okV := constStringAt(s.Val)
+					kv := constVal(s.Val)
+					if (okV && iv2 == iv && len(vs) >= len(ks)) || kv != nil {
+						for i := 0; i < len(ks); i++ {
+							v := kv
+							if kv == nil {
+								v = constant.MakeInt64(int64(vs[i]))
+							}
+							stores = append(stores, st{s, int64(ks[i]), v, s.Block(), ord + i, f})
+						}
+						return
+					}
+				}
+			}
 			val := constVal(s.Val)
 			if val == nil {
 				t.err = "non-constant value stored at " + c.pos(s.Pos())
 				return
-			}
-			ord := 0
-			for i, x := range s.Block().Instrs {
-				if x == in {
-					ord = i
-				}
 			}
 			if k := constVal(ia.Index); k != nil {
 				n, _ := cInt(k)
@@ -748,4 +765,75 @@ func isArrayOrStruct(t types.Type) bool {
 		return true
 	}
 	return false
+}
+
+// constStringAt: v is s[i] for a constant string s (through conversions); returns s and the index value.
+func constStringAt(v ssa.Value) (string, ssa.Value, bool) {
+	for {
+		if cv, ok := v.(*ssa.Convert); ok {
+			v = cv.X
+			continue
+		}
+		break
+	}
+	ix, ok := v.(*ssa.Index)
+	if !ok {
+		return "", nil, false
+	}
+	k, ok := ix.X.(*ssa.Const)
+	if !ok || k.Value == nil || k.Value.Kind() != constant.String {
+		return "", nil, false
+	}
+	return constant.StringVal(k.Value), ix.Index, true
+}
+
+// fullLoopOver: iv takes exactly the values 0..n-1, once each, and blk runs in every iteration: the key of a
+// range over an ASCII constant string, or the variable of a counted loop with a constant bound.
+func fullLoopOver(iv ssa.Value, blk *ssa.BasicBlock) (int64, bool) {
+	if ex, ok := iv.(*ssa.Extract); ok && ex.Index == 1 {
+		nx, ok := ex.Tuple.(*ssa.Next)
+		if !ok || !nx.IsString {
+			return 0, false
+		}
+		rg, ok := nx.Iter.(*ssa.Range)
+		if !ok {
+			return 0, false
+		}
+		k, ok := rg.X.(*ssa.Const)
+		if !ok || k.Value == nil || k.Value.Kind() != constant.String {
+			return 0, false
+		}
+		str := constant.StringVal(k.Value)
+		for i := 0; i < len(str); i++ {
+			if str[i] >= 0x80 {
+				return 0, false
+			}
+		}
+		// blk is the loop body entered on the ok edge
+		hdr := nx.Block()
+		if len(hdr.Succs) == 2 && hdr.Succs[0] == blk {
+			return int64(len(str)), true
+		}
+		return 0, false
+	}
+	phi := loopPhiOf(iv)
+	if phi == nil {
+		return 0, false
+	}
+	l, why := findCountedLoopAny(phi, iv)
+	if why != "" {
+		return 0, false
+	}
+	n, ok := cInt(constVal(l.bound))
+	if !ok {
+		return 0, false
+	}
+	// blk is the first body block
+	hdr := phi.Block()
+	for _, su := range hdr.Succs {
+		if su == blk && naturalLoop(hdr)[su] {
+			return n, true
+		}
+	}
+	return 0, false
 }
